@@ -14,7 +14,17 @@ import (
 // generator kernels): each returns fresh arbitrary strings of the documented shape.
 
 // SummarySMSCode: sms2fa.generateRandomCode — six characters.
-func SummarySMSCode() (string, error) { return verif.FreshString("smscode", 6), nil }
+func SummarySMSCode() (string, error) {
+	code := verif.FreshString("smscode", 6)
+	for _, c := range OutstandingCodes {
+		verif.Assume(code != c) // fresh randomness differs from codes already outstanding (negligible collision probability)
+	}
+	return code, nil
+}
+
+// OutstandingCodes: codes the harness declares outstanding; freshly generated SMS codes are
+// assumed to differ from them.
+var OutstandingCodes []string
 
 // SummaryRecoveryCodes: twofactor.GenerateRecoveryCodes — ten codes "xxxxx-xxxxx".
 func SummaryRecoveryCodes() ([]string, error) {
